@@ -3,8 +3,10 @@
 Copies a confirmed seeded change from /tmp/seed-<PID>/ into /verif/seeded/<PID>-<X>/ with meta.json."""
 import json, os, re, shutil, sys
 pid, x, caught, missed, remarks = sys.argv[1:6]
-src = "/tmp/seed-%s" % pid
-dst = os.path.join(os.path.dirname(os.path.dirname(os.path.abspath(__file__))), "seeded", "%s-%s" % (pid, x))
+rnd = os.environ.get("ROUND", "1")
+src = "/tmp/seed-%s" % pid if rnd == "1" else "/tmp/seed%s-%s" % (rnd, pid)
+name = x if rnd == "1" else {"A": "C", "B": "D"}[x] if rnd == "2" else {"A": "E", "B": "F"}[x]
+dst = os.path.join(os.path.dirname(os.path.dirname(os.path.abspath(__file__))), "seeded", "%s-%s" % (pid, name))
 os.makedirs(dst, exist_ok=True)
 shutil.copy(os.path.join(src, "%s.diff" % x), os.path.join(dst, "patch.diff"))
 shutil.copy(os.path.join(src, "%s_demo.py" % x), os.path.join(dst, "demo.py"))
@@ -12,7 +14,8 @@ notes = open(os.path.join(src, "notes.md")).read()
 # section of the notes about this change
 m = re.split(r"(?im)^#+\s*.*\bchange\s+%s\b.*$|^#+\s*%s\b.*$" % (x, x), notes)
 meta = {
-    "seed": "%s-%s" % (pid, x),
+    "seed": "%s-%s" % (pid, name),
+    "round": int(rnd),
     "breaks_property": pid,
     "needs_to_manifest": "see notes (author's description below)",
     "author_notes": notes,
